@@ -289,6 +289,47 @@ fn containsg(xs: array<T Equal>, t: T) -> bool {
   }
   found
 }
+fn lamg(x: T ToString, n: int) -> string {
+  let f = () -> "<" .. x .. n .. ">"
+  f()
+}
+fn lam2g(x: T ToString, n: int) -> string {
+  let f = () -> {
+    let g = () -> {
+      let y = x
+      "<<" .. y .. n .. ">>"
+    }
+    g()
+  }
+  f()
+}
+fn taskg(x: T ToString, n: int) -> string {
+  let d: channel<string> = channel()
+  task {
+    let y = x
+    d.write("t<" .. y .. n .. ">")
+  }
+  d.read()
+}
+fn lameq(a: T Equal, b: T) -> bool {
+  let f = () -> a == b
+  f()
+}
+fn quietg(x: T, n: int) -> int {
+  let f = () -> {
+    let y = x
+    n + 1
+  }
+  f()
+}
+fn quiettask(x: T, n: int) -> int {
+  let d: channel<int> = channel()
+  task {
+    let y = x
+    d.write(n + 2)
+  }
+  d.read()
+}
 """
 
 
@@ -424,6 +465,24 @@ def cases():
     seq = [VALUES[t][0] for t in PRINTABLE]
     add("idg at every type in one program", "\n".join("println(idg(%s))" % v.src for v in seq + seq[::-1]), "".join(show(v) + "\n" for v in seq + seq[::-1]))
     add("showg at every type in one program", "\n".join("println(showg(%s))" % v.src for v in seq), "".join("<%s>\n" % show(v) for v in seq))
+    # a lambda / nested lambda / task inside the generic function uses the generic value: one body per
+    # instantiation, also when the closure's own type is not generic, also at void
+    for g, fmt in (("lamg", "<%s1>"), ("lam2g", "<<%s1>>"), ("taskg", "t<%s1>")):
+        add("%s at every type in one program" % g, "\n".join("println(%s(%s, 1))" % (g, v.src) for v in seq + seq[::-1]),
+            "".join(fmt % show(v) + "\n" for v in seq + seq[::-1]))
+        add("%s at void among others" % g, "println(%s(nil, 1))\nprintln(%s(%s, 1))\nprintln(%s(nil, 1))" % (g, g, seq[0].src, g),
+            fmt % "nil" + "\n" + fmt % show(seq[0]) + "\n" + fmt % "nil" + "\n")
+    add("quietg at void and others", "println(quietg(nil, 1))\nprintln(quietg(3, 2))\nprintln(quietg(\"s\", 3))\nprintln(quietg(nil, 4))", "2\n3\n4\n5\n")
+    add("quiettask at void and others", "println(quiettask(nil, 1))\nprintln(quiettask([1], 2))\nprintln(quiettask(2.5, 3))\nprintln(quiettask(nil, 4))", "3\n4\n5\n6\n")
+    body, exp = [], ""
+    for t in EQUAL:
+        a, b, c = VALUES[t]
+        for (x, y) in ((a, b), (b, b)):
+            l = []
+            r = eq(x, y, l)
+            body.append("println(lameq(%s, %s))" % (x.src, y.src))
+            exp += out(l, show(V("bool", r, None)))
+    add("lameq at every type in one program", "\n".join(body), exp)
     for t in EQUAL:
         a, b, c = VALUES[t]
         for (x, y) in ((a, b), (a, c), (b, b)):
